@@ -8,33 +8,37 @@ set_option linter.unusedVariables false
 namespace MenpoModel.Generated.C19Src
 open MenpoModel.LazyList MenpoModel.PyData
 
+def genInit (callables : List LThunk) : LL :=
+    let self0 := (Fresh.setCallables (LL.fresh ⟨[]⟩) callables)
+    (ToLL.toLL self0)
+
 def genLen (s : LL) : Nat :=
     (PyLen.len s.callables)
 
 def genCopy (s : LL) : LL :=
-    let new0 := s
-    let new1 := (LL.setCallables new0 (Py.list s.callables))
-    new1
+    let new0 := (LL.fresh s)
+    let new1 := (Fresh.setCallables new0 (Py.list s.callables))
+    (ToLL.toLL new1)
 
 def genGetitem (s : LL) (x : GArg) : Except Err GetRes :=
     if (x.iterable && (!x.zeroDim)) then
-      (ToGetRes.ret (LL.new (List.map (fun it0 => let s0 := it0; (PyGetItem.get s.callables s0)) (PyIter.iter x))))
+      (ToGetRes.ret (LL.newWith genInit (List.map (fun it0 => let s0 := it0; (PyGetItem.get s.callables s0)) (PyIter.iter x))))
     else
       if (x.isInt || x.hasIndex) then
         (ToGetRes.ret (Py.call (PyGetItem.get s.callables x)))
       else
-        (ToGetRes.ret (LL.new (PyGetItem.get s.callables x)))
+        (ToGetRes.ret (LL.newWith genInit (PyGetItem.get s.callables x)))
 
 def genInitFromIterable (iterable : List Int) (f : PFn) : Except Err LL :=
     if ((f).isNone) then
       let f0 := fun i0 =>
           i0
-      (LL.new (List.map (fun it0 => let x0 := it0; (PyPartial.ap f0 x0)) (PyIter.iter iterable)))
+      (LL.newWith genInit (List.map (fun it0 => let x0 := it0; (PyPartial.ap f0 x0)) (PyIter.iter iterable)))
     else
-      (LL.new (List.map (fun it0 => let x0 := it0; (PyPartial.ap f x0)) (PyIter.iter iterable)))
+      (LL.newWith genInit (List.map (fun it0 => let x0 := it0; (PyPartial.ap f x0)) (PyIter.iter iterable)))
 
 def genInitFromIndexCallable (f : PFn) (n : Int) : Except Err LL :=
-    (LL.new (List.map (fun it0 => let i0 := it0; (PyPartial.ap f i0)) (PyIter.iter (Py.range n))))
+    (LL.newWith genInit (List.map (fun it0 => let i0 := it0; (PyPartial.ap f i0)) (PyIter.iter (Py.range n))))
 
 def genDelayed (e : Env) (bad : Nat → Bool) (f : Nat) (t : LThunk) : Except Err Int × List Ev :=
     (Py.callFn e bad f (Py.callThunk e bad t))
@@ -43,28 +47,28 @@ def genMap (s : LL) (f : MArg) : Except Err LL :=
     if (f.iterable && f.callable) then
       .error .value
     else
-      let new0 := (genCopy s)
+      let new0 := (LL.fresh (genCopy s))
       if f.iterable then
         ((MArg.lenE f)).bind fun h0 =>
           if ((h0 != (PyLen.len new0))) then
             .error .value
           else
-            let new1 := (LL.setCallables new0 (List.map (fun it0 => let p0 := it0; let onef0 := p0.1; let x0 := p0.2; (LThunk.app (ToFnId.fid onef0) x0)) (PyIter.iter (List.zip (PyIter.iter f) (PyIter.iter new0.callables)))))
-            (.ok new1)
+            let new1 := (Fresh.setCallables new0 (List.map (fun it0 => let p0 := it0; let onef0 := p0.1; let x0 := p0.2; (LThunk.app (ToFnId.fid onef0) x0)) (PyIter.iter (List.zip (PyIter.iter f) (PyIter.iter new0.callables)))))
+            (.ok (ToLL.toLL new1))
       else
-        let new1 := (LL.setCallables new0 (List.map (fun it0 => let x0 := it0; (LThunk.app (ToFnId.fid f) x0)) (PyIter.iter new0.callables)))
-        (.ok new1)
+        let new1 := (Fresh.setCallables new0 (List.map (fun it0 => let x0 := it0; (LThunk.app (ToFnId.fid f) x0)) (PyIter.iter new0.callables)))
+        (.ok (ToLL.toLL new1))
 
 def genRepeat (s : LL) (n : Int) : LL :=
-    let new0 := (genCopy s)
-    let new1 := (LL.setCallables new0 (Py.list (Py.chainStar (Py.zipStar (Py.listMul [new0.callables] n)))))
-    new1
+    let new0 := (LL.fresh (genCopy s))
+    let new1 := (Fresh.setCallables new0 (Py.list (Py.chainStar (Py.zipStar (PyMul.mul [new0.callables] n)))))
+    (ToLL.toLL new1)
 
 def genAdd : Nat → LL → AArg → Except Err LL
   | 0, _, _ => .error .type
   | fuel + 1, s, other =>
     if other.isLazy then
-      (LL.new (PyAdd.add (genAdd fuel) s.callables other.callables))
+      (LL.newWith genInit (PyAdd.add (genAdd fuel) s.callables other.callables))
     else
       if other.iterable then
         ((genInitFromIterable other.items PFn.none)).bind fun h0 =>
@@ -124,7 +128,7 @@ def genImportGlob (w : GlobWorld) (pat : Unit) (known : List Nat) (max : Option 
               if ((nfiles0 == (0))) then
                 .error .value
               else
-                ((LL.new (List.map (fun it0 => let f0 := it0; (importThunkSrc known r lmExt attach f0)) (PyIter.iter filepaths0)))).bind fun lazylist0 =>
+                ((LL.newWith genInit (List.map (fun it0 => let f0 := it0; (importThunkSrc known r lmExt attach f0)) (PyIter.iter filepaths0)))).bind fun lazylist0 =>
                   if (verbose && asGen) then
                     let lazylist1 := (Py.progress lazylist0)
                     if asGen then
@@ -141,7 +145,7 @@ def genImportGlob (w : GlobWorld) (pat : Unit) (known : List Nat) (max : Option 
               if ((nfiles0 == (0))) then
                 .error .value
               else
-                ((LL.new (List.map (fun it0 => let f0 := it0; (importThunkSrc known r lmExt attach f0)) (PyIter.iter filepaths1)))).bind fun lazylist0 =>
+                ((LL.newWith genInit (List.map (fun it0 => let f0 := it0; (importThunkSrc known r lmExt attach f0)) (PyIter.iter filepaths1)))).bind fun lazylist0 =>
                   if (verbose && asGen) then
                     let lazylist1 := (Py.progress lazylist0)
                     if asGen then
@@ -160,7 +164,7 @@ def genImportGlob (w : GlobWorld) (pat : Unit) (known : List Nat) (max : Option 
           if ((nfiles0 == (0))) then
             .error .value
           else
-            ((LL.new (List.map (fun it0 => let f0 := it0; (importThunkSrc known r lmExt attach f0)) (PyIter.iter filepaths0)))).bind fun lazylist0 =>
+            ((LL.newWith genInit (List.map (fun it0 => let f0 := it0; (importThunkSrc known r lmExt attach f0)) (PyIter.iter filepaths0)))).bind fun lazylist0 =>
               if (verbose && asGen) then
                 let lazylist1 := (Py.progress lazylist0)
                 if asGen then
@@ -177,7 +181,7 @@ def genImportGlob (w : GlobWorld) (pat : Unit) (known : List Nat) (max : Option 
           if ((nfiles0 == (0))) then
             .error .value
           else
-            ((LL.new (List.map (fun it0 => let f0 := it0; (importThunkSrc known r lmExt attach f0)) (PyIter.iter filepaths1)))).bind fun lazylist0 =>
+            ((LL.newWith genInit (List.map (fun it0 => let f0 := it0; (importThunkSrc known r lmExt attach f0)) (PyIter.iter filepaths1)))).bind fun lazylist0 =>
               if (verbose && asGen) then
                 let lazylist1 := (Py.progress lazylist0)
                 if asGen then
@@ -201,7 +205,7 @@ def genImportGlob (w : GlobWorld) (pat : Unit) (known : List Nat) (max : Option 
               if ((nfiles0 == (0))) then
                 .error .value
               else
-                ((LL.new (List.map (fun it0 => let f0 := it0; (importThunkSrc known r lmExt attach f0)) (PyIter.iter filepaths1)))).bind fun lazylist0 =>
+                ((LL.newWith genInit (List.map (fun it0 => let f0 := it0; (importThunkSrc known r lmExt attach f0)) (PyIter.iter filepaths1)))).bind fun lazylist0 =>
                   if (verbose && asGen) then
                     let lazylist1 := (Py.progress lazylist0)
                     if asGen then
@@ -218,7 +222,7 @@ def genImportGlob (w : GlobWorld) (pat : Unit) (known : List Nat) (max : Option 
               if ((nfiles0 == (0))) then
                 .error .value
               else
-                ((LL.new (List.map (fun it0 => let f0 := it0; (importThunkSrc known r lmExt attach f0)) (PyIter.iter filepaths0)))).bind fun lazylist0 =>
+                ((LL.newWith genInit (List.map (fun it0 => let f0 := it0; (importThunkSrc known r lmExt attach f0)) (PyIter.iter filepaths0)))).bind fun lazylist0 =>
                   if (verbose && asGen) then
                     let lazylist1 := (Py.progress lazylist0)
                     if asGen then
@@ -237,7 +241,7 @@ def genImportGlob (w : GlobWorld) (pat : Unit) (known : List Nat) (max : Option 
           if ((nfiles0 == (0))) then
             .error .value
           else
-            ((LL.new (List.map (fun it0 => let f0 := it0; (importThunkSrc known r lmExt attach f0)) (PyIter.iter filepaths1)))).bind fun lazylist0 =>
+            ((LL.newWith genInit (List.map (fun it0 => let f0 := it0; (importThunkSrc known r lmExt attach f0)) (PyIter.iter filepaths1)))).bind fun lazylist0 =>
               if (verbose && asGen) then
                 let lazylist1 := (Py.progress lazylist0)
                 if asGen then
@@ -254,7 +258,7 @@ def genImportGlob (w : GlobWorld) (pat : Unit) (known : List Nat) (max : Option 
           if ((nfiles0 == (0))) then
             .error .value
           else
-            ((LL.new (List.map (fun it0 => let f0 := it0; (importThunkSrc known r lmExt attach f0)) (PyIter.iter filepaths0)))).bind fun lazylist0 =>
+            ((LL.newWith genInit (List.map (fun it0 => let f0 := it0; (importThunkSrc known r lmExt attach f0)) (PyIter.iter filepaths0)))).bind fun lazylist0 =>
               if (verbose && asGen) then
                 let lazylist1 := (Py.progress lazylist0)
                 if asGen then
